@@ -4,7 +4,7 @@
 NAME="$1"; shift
 cd /verif || exit 2
 if [ -n "$(git -C /repo status --porcelain)" ]; then echo "/repo not clean"; exit 2; fi
-git -C /repo apply "seeded/$NAME/patch.diff" || { echo "patch does not apply"; exit 2; }
+git -C /repo apply "/verif/seeded/$NAME/patch.diff" || { echo "patch does not apply"; exit 2; }
 for P in "$@"; do
   VERIF_SCRATCH=/verif/.scratch/mut ./check "$P" --tier "${TIER:-quick}" > .scratch/mut-$NAME-$P.log 2>&1
   rc=$?
